@@ -297,6 +297,11 @@ class Gaussian(Distribution):
         cov = self.compute_cov() # Ensure that we have the full covariance matrix
         return sps.multivariate_normal.cdf(x1, self.mean, cov)
 
+    def _apply_prec(self, dev):
+        """ Precision matrix times dev. Uses sqrtprec (prec = sqrtprec.T@sqrtprec), which is
+        stored as a matrix for every parameterization (scalar, vector or matrix cov, prec, sqrtcov, sqrtprec). """
+        return self.sqrtprec.T @ (self.sqrtprec @ dev)
+
     def _gradient(self, val, *args, **kwargs):
         #Avoid complicated geometries that change the gradient.
         if not type(self.geometry) in _get_identity_geometries() and \
@@ -304,13 +309,13 @@ class Gaussian(Distribution):
             raise NotImplementedError("Gradient not implemented for distribution {} with geometry {}".format(self,self.geometry))
 
         if not callable(self.mean): # for prior
-            return -( self.prec @ (val - self.mean).T )
+            return -self._apply_prec(val - self.mean)
         elif hasattr(self.mean, "gradient"): # for likelihood
             model = self.mean
             dev = val - model.forward(*args, **kwargs)
             if isinstance(dev, numbers.Number):
                 dev = np.array([dev])
-            return model.gradient(self.prec @ dev, *args, **kwargs)
+            return model.gradient(self._apply_prec(dev), *args, **kwargs)
         else:
             raise NotImplementedError('Gradient not implemented for {}'.format(type(self.mean)))
 
